@@ -310,3 +310,15 @@ func asT[T any](v reflect.Value) T {
 	reflect.ValueOf(&z).Elem().Set(v)
 	return z
 }
+
+// NoteAlias records (as an observation class, never as a violation) that a result shares memory
+// with an input. The properties say nothing about aliasing, so this does not decide anything; it
+// is kept visible in the evidence.
+func NoteAlias(t *FT, class string, result, input any) {
+	if result == nil || input == nil {
+		return
+	}
+	if Overlap(Reach(reflect.ValueOf(result)), Reach(reflect.ValueOf(input))) != "" {
+		t.rep.Res.Classes["observation:"+class]++
+	}
+}
